@@ -39,7 +39,7 @@ type Info struct {
 	N             int      // relationships of the main document besides styles = the library's "count" after open
 	IDs           []string // their ids, file order
 	StylesID      string   // "" = no styles relationship
-	Dense         bool     // ids are exactly rId2..rId(N+1) and styles is rId1: the library's own numbering
+	Dense         bool     // the ids besides styles are exactly rId2..rId(N+1): the library's own numbering
 	CollideFirst  bool     // rId(N+2) is taken: the first addition collides
 	HoleAtNext    bool     // rId(N+2) is free but a larger numeric id exists
 	NonRid        bool     // some id is not of the form rId<number>
@@ -446,7 +446,7 @@ func Transform(b []byte, f *Foreign) ([]byte, *Info, error) {
 	parts["[Content_Types].xml"] = []byte(ct)
 
 	// 10. facts for labels and triggers
-	dense := stylesID == "rId1"
+	dense := true
 	nums := map[int]bool{}
 	for _, r := range others {
 		info.IDs = append(info.IDs, r.id)
